@@ -153,7 +153,7 @@ def reference(cfg, d, max_boundaries=400):
     recs = []
     prev = parts(s)
     done = False
-    with warnings.catch_warnings():
+    with warnings.catch_warnings(), common.cpu_limit(1800):
         warnings.simplefilter('ignore')
         while not done and len(recs) < max_boundaries:
             s._kinds = []
@@ -185,7 +185,7 @@ def verify_boundary(args):
     out = dict(k=rec['k'], loadDiff=[], step1Diff=[], step2Diff=[], dupCalls=0, error=None)
     s = None
     try:
-        with warnings.catch_warnings():
+        with warnings.catch_warnings(), common.cpu_limit(300):
             warnings.simplefilter('ignore')
             s = make(cfg, model, path, resume=True)
             out['loadDiff'] = groups(diff(rec['parts'], parts(s)), rec['wshell'])
@@ -284,7 +284,7 @@ def sliced_history(args):
     s = make(cfg, model, path, resume=False, cls=Sampler)
     out = dict(stops=stops, resume=resume, error=None)
     try:
-        with warnings.catch_warnings():
+        with warnings.catch_warnings(), common.cpu_limit(1200):
             warnings.simplefilter('ignore')
             for k, r in zip(stops, resume):
                 s.run(n_like_max=k * nb, **runkw)
